@@ -335,6 +335,34 @@ func c18Gen(r *rand.Rand, n int, tier string, emit func(...string)) {
 			c18GenPeer(r, emit)
 		}
 	}
+	if tier == "thorough" {
+		// exhaustive small scope, base leecher: every history of length <= 5 over two peers
+		syms := [][]string{{"r", "1"}, {"r", "2"}, {"x"}}
+		for _, p := range []string{"1", "2"} {
+			for _, c := range []string{"0", "1"} {
+				syms = append(syms, []string{"u", p, c})
+			}
+		}
+		for _, st := range []string{"0", "1"} {
+			for _, c := range []string{"0", "1"} {
+				syms = append(syms, []string{"t", st, c})
+			}
+		}
+		var rec func(prefix []string, depth int)
+		rec = func(prefix []string, depth int) {
+			if depth > 0 {
+				emit(prefix...)
+			}
+			if depth == 5 {
+				return
+			}
+			for _, sy := range syms {
+				next := append(append(append([]string{}, prefix...), ";"), sy...)
+				rec(next, depth+1)
+			}
+		}
+		rec([]string{"B"}, 0)
+	}
 }
 
 func init() {
